@@ -97,6 +97,7 @@ class Ctx:
             if nviol <= 5:
                 path = common.write_replay(self.pid, {"property": self.pid, "what": what, **payload})
                 lines.append(f"VIOLATION property={self.pid} replay={path}")
+                lines.append("   what: " + " ".join(str(what).split())[:400])      # (the replay file has it in full)
         if nviol == 0 and self.broken_ties:
             path = common.write_replay(self.pid, {
                 "property": self.pid,
@@ -105,6 +106,7 @@ class Ctx:
                 "searched": {"evaluations": self.evaluations, "tier": self.tier},
             })
             lines.append(f"VIOLATION property={self.pid} replay={path} no-failing-input-found")
+            lines.append("   what: " + "; ".join(f"{k}: " + " ".join(str(d).split())[-300:] for k, d in self.broken_ties[:2]))
             nviol = 1
         # listed known findings that were replayed explicitly but not hit are not printed
         cov = {
